@@ -764,7 +764,7 @@ func (dru *dirRepoUpload) Write(p []byte) (int, error) {
 	dru.mu.Lock()
 	defer dru.mu.Unlock()
 	if dru.w == nil {
-		return 0, fmt.Errorf("writer is closed")
+		return 0, fmt.Errorf("writer is closed, session %s%.0w", dru.sessionID, types.ErrNotFound)
 	}
 	// verify session still exists and update last write time
 	if _, err := dru.dr.uploads.Get(dru.sessionID); err != nil {
